@@ -14,16 +14,16 @@ CHECKS = {
    note='Trusts CrossHair 0.0.110 models of int/str/tuple/re and z3; Version objects are built field-wise as the constructor leaves them; reference order written from the module docstring; hash checked by realised values.', ref='5 C18'),
 }
 CHECKS['C20'] = dict(engine='E1-crosshair', technique='bounded symbolic execution with SMT (CrossHair/z3): op(Quantity(v,u),x) vs op(v,x) per operator and operand form; replay',
-   text='One CrossHair condition per (operator found on the live Qty class, operand form Q.n / n.Q / Q.Q); int and bool operands are symbolic z3 terms (unbounded, or small ranges concretised per value for mul/div/mod/pow/shift/bitwise), floats come from a concrete catalogue of special values selected by symbolic index. Result and exception class are compared with the plain-number computation. "confirmed" = all paths exhausted.',
+   text='One CrossHair condition per (operator found on the live Qty class, operand form Q.n / n.Q / Q.Q); int and bool operands are symbolic z3 terms (unbounded, or small ranges concretised per value for mul/div/mod/pow/shift/bitwise), floats come from a concrete catalogue of special values selected by symbolic index (incl. ints beyond 2**53 and beyond the float range). Result and exception class are compared with the plain-number computation. "confirmed" = all paths exhausted; the division and pow conditions are decided by the symx explorer on the same harness text (CrossHair realises ints at the float conversion).',
    note='Trusts CrossHair/z3 and CPython number semantics on the right-hand side of the comparison; MODE_PINT off; float rounding is not decided by the solver.', ref='5 C20')
 CHECKS['C16'] = dict(engine='E1-crosshair', technique='bounded symbolic execution with SMT (CrossHair/z3): one operation from an arbitrary valid map vs reference ordered-map model; replay',
-   text='One CrossHair condition per SortableDict/MetadataObject operation. The pre-state (which of 4-5 keys, in which order, with which symbolic values) and every argument (key, value, index, pos_key, after, replace) are symbolic; the real method and a reference ordered-map model run in lock step; the representation invariant is re-established after every operation, so the step result extends to histories (induction schema trusted). "confirmed" = all paths exhausted within the bound.',
+   text='One CrossHair condition per SortableDict/MetadataObject operation. The pre-state (which of 4-5 keys, in which order, with which symbolic values, null included) and every argument (key, value, index, pos_key, after, replace) are symbolic; the real method and a reference ordered-map model run in lock step; the representation invariant is re-established after every operation, so the step result extends to histories (induction schema trusted). "confirmed" = all paths exhausted within the bound.',
    note='Trusts CrossHair/z3; the reference model is written from the add_item docstring; keys are concrete strings chosen by symbolic selectors; multi-item extend/update compared item by item.', ref='5 C16')
 SYMX = 'E2-symx'
 for pid, what, ref in (('C14', 'list behaviour (len, iteration, indexing incl. negative, slicing with carried version/metadata/columns, membership, exception class, refused operations change nothing)', '5 C14'),
                        ('C15', 'g[key]/g.get(key) against a scan of the model list (a current row with that id string, else KeyError/default)', '5 C15')):
     CHECKS[pid] = dict(engine=SYMX, technique='bounded symbolic execution of the real Grid code (own explorer, z3 decides every branch): one operation from an arbitrary small grid in lock step with a list model; replay',
-       text='One exhaustive symbolic exploration per (operation, pre-state size): the pre-state (row kinds with str/int/Ref/no ids, id index never built or built, version explicit/default/auto-upgraded) and all arguments are symbolic selectors/ints; the real Grid method and a Python list run in lock step and are compared through ' + what + '. Also a two-step family and a derived-grid (slice/filter) family. The work list empties, so every path within the bound is decided.',
+       text='One exhaustive symbolic exploration per (operation, pre-state size): the pre-state (row kinds with str/int/Ref/no ids incl. the falsy ids 0 and \'\', id index never built or built, version explicit/default/auto-upgraded) and all arguments are symbolic selectors/ints; the real Grid method and a Python list run in lock step and are compared through ' + what + '. Slice deletion covers omitted bounds and steps None/1/2/-1/-2; refused rows include non-dict mappings (SortableDict, MetadataObject). Also a two-step family and a derived-grid (slice/filter) family. The work list empties, so every path within the bound is decided.',
        note='Trusts the symx explorer (proxies + z3) and the list model; rows are concrete dicts chosen by symbolic selectors; bounds: <=2 (quick) / <=3 (thorough) rows in the pre-state; counterexamples replayed on plain CPython.', ref=ref)
 CHECKS['C16']['engine'] = SYMX
 CHECKS['C19'] = dict(engine=SYMX, technique='bounded symbolic execution of the real __eq__/__ne__/__hash__/Grid.__eq__ (own explorer, z3 decides every branch) against a kind-aware reference equality; replay',
@@ -44,31 +44,31 @@ CHECKS['C04'] = dict(engine=SYMX, technique=TXT.replace('real writer and reader'
    note='The reference is my recollection of the ZINC grammar (uncertain points listed in evidence and treated permissively); numeric/temporal kinds concrete; known finding bin-zinc-3.0 excluded by region.', ref='5 C04')
 MUT = 'bounded symbolic execution of the real ZINC reader and an independent reference reader on concrete well-formed documents with one symbolic code point substituted/inserted at each position (z3 decides every branch); replay'
 CHECKS['C09'] = dict(engine=SYMX, technique=MUT,
-   text='For each of 7 grid documents and 18 scalar texts covering every construct, and each position (every third in quick, every one in thorough; version texts always), one unconstrained symbolic code point replaces or is inserted before the character; hszinc.parse / parse_scalar and the reference reader run on the symbolic text. Every path is classified: grids, ZincParseException with line/col inside its text, another exception (violation), or a structurally broken text accepted (violation when the reference rejects for one of the structural reasons the property lists).',
+   text='For each of 7 grid documents and 18 scalar texts covering every construct, and each position (every third in quick, every one in thorough; version texts always), one unconstrained symbolic code point replaces or is inserted before the character; hszinc.parse / parse_scalar and the reference reader run on the symbolic text. Every path is classified: grids, ZincParseException with line/col inside its text, another exception (violation), or a structurally broken text accepted (violation when the reference rejects for one of the structural reasons the property lists). Also fully symbolic scalar texts of 1-2 (quick) / 1-3 (thorough) unconstrained code points (every text of that length), adjacent symbolic pairs on the scalar corpus (thorough), and agreement of parse(text) with parse(text, single=False).',
    note='Single-position mutations only; over-acceptance oracle limited to the structural families named by the property; C-level conversions reached with a symbolic character are executed after exhaustive forking over its feasible values (<=700) or, for larger domains, on sampled representatives (counted).', ref='5 C09')
 CHECKS['C03'] = dict(engine=SYMX, technique=MUT,
-   text='Same corpus and mutation scheme as C09; on every path where the (strict) reference reader accepts the text, hszinc must accept it too and denote the same grid (numbers, instants, texts compared via a neutral tree). The corpus covers blanks around commas, empty cells, digit separators, exponents, INF/-INF/NaN, all escapes, CRLF, trailing commas, t/T z/Z, zone names, final newline, multi-grid documents, both versions.',
+   text='Same corpus and mutation scheme as C09; on every path where the (strict) reference reader accepts the text, hszinc must accept it too and denote the same grid (numbers, instants, texts compared via a neutral tree). The corpus covers blanks around commas, empty cells, digit separators, exponents, INF/-INF/NaN, all escapes, CRLF, trailing commas, t/T z/Z, zone names, final newline, multi-grid documents, both versions. Also every scalar text of 1-2 (quick) / 1-3 (thorough) unconstrained code points and adjacent symbolic pairs on the scalar corpus (thorough).',
    note='Points where my recollection of the spec is uncertain are rejected by the reference as "uncertain" and thus outside the claim (listed in evidence).', ref='5 C03')
 CHECKS['C06'] = dict(engine=SYMX, technique=TXT.replace('real writer and reader', 'real JSON writer, whose output tree is decoded by an independent reference decoder (vf/spec/json_ref.py) in the same symbolic run'),
    text='Same harness family as C02; the JSON-ready tree produced by the real writer (and, in the concrete catalogue runs and replays, the real JSON text through json.loads) is checked for shape {meta:{ver},cols:[{name}],rows:[{}]} / array of such, version-dependent Remove spelling, and decoded by an independent reference decoder; z3 is asked for a payload for which the reference rejects or recovers a different grid (numbers to six decimals).',
    note='Reference = my recollection of the Haystack JSON encoding (uncertain points listed); numeric/temporal kinds concrete.', ref='5 C06')
 CHECKS['C05'] = dict(engine=SYMX, technique='bounded symbolic execution of the real JSON scalar decoder and an independent reference decoder on encoded scalars with one symbolic code point substituted/inserted at each position; concrete structural variants x input forms; replay',
-   text='Corpus of 25 encoded scalars (every type code and spelling the property lists); one unconstrained symbolic code point replaces / is inserted at every position; on every path where the strict reference decoder accepts, hszinc must decode to the same value (neutral tree, instants for date-times). Plus concrete runs of 7 structural grid variants x 5 input forms, including "the pre-decoded input object is unchanged" and "parsing it twice gives the same grid".',
+   text='Corpus of 25 encoded scalars (every type code and spelling the property lists); one unconstrained symbolic code point replaces / is inserted at every position; on every path where the strict reference decoder accepts, hszinc must decode to the same value (neutral tree, instants for date-times). Also every string of 1-4 (quick) / 1-5 (thorough) unconstrained code points as an encoded scalar, and adjacent symbolic pairs on the corpus (thorough). Plus concrete runs of 8 structural grid variants x 5 input forms, including "the pre-decoded input object is unchanged" and "parsing it twice gives the same grid".',
    note='Single-position mutations; uncertain spec points are outside the claim; grid-level forms are concrete configurations.', ref='5 C05')
 CHECKS['C07'] = dict(engine=SYMX, technique=MUT + '; concrete corpus runs',
    text='Parser-made grids (from the ZINC spelling corpus, extra documents with fixed-offset date-times in different DST seasons and at skipped local times, non-official versions 2.5 / 3.0.0, and JSON-origin grids) are re-dumped in both formats, re-parsed, transcoded ZINC->JSON->ZINC and JSON->ZINC->JSON and normalised twice; checks: no exception (except the documented ValueError for an offset no zone has), equal grids, two dumps identical, grid unchanged by dumping, dump(parse(dump(g))) == dump(g) character for character. Concretely for every document and symbolically with one symbolic character substituted at every second (quick) / every (thorough) position, z3 deciding every branch and the final "exists character for which any of these differs" query.',
    note='As C03/C09; JSON floats to six decimals; symbolic runs use the JSON-ready tree; purity is observed through a neutral snapshot of the grid before and after dumping.', ref='5 C07')
 CHECKS['C11'] = dict(engine=SYMX, technique='bounded symbolic execution of Grid.filter and the generated filter functions on symbolic rows (own explorer, z3 decides every branch) against an independent reference evaluator; filters compiled by the real pipeline; replay',
-   text='Filter texts (every and/or/not/parenthesis tree with <=3 (quick) / <=4 (thorough) leaves in two renderings, unparenthesised chains, 14 literal kinds x 6 operators, a->b and a->b->c paths) are compiled by the real parse_filter -> source generation -> exec pipeline; Grid.filter then runs on rows whose tag presence bits, value kinds (symbolic selector over 29 values) and one numeric value (unbounded z3 Int) are symbolic, with symbolic limit. The rows returned (identity and order), carried version/metadata/columns and the untouched source grid are compared with an independent evaluator of the filter AST.',
+   text='Filter texts (every and/or/not/parenthesis tree with <=3 (quick) / <=4 (thorough) leaves in two renderings, unparenthesised chains, 14 literal kinds x 6 operators, a->b and a->b->c paths) are compiled by the real parse_filter -> source generation -> exec pipeline; Grid.filter then runs on rows whose tag presence bits, value kinds (symbolic selector over 29 values) and one numeric value (unbounded z3 Int) are symbolic, with symbolic limit. The rows returned (identity and order), carried version/metadata/columns and the untouched source grid are compared with an independent evaluator of the filter AST. Tag presence is checked for a tag holding each of 45 values (every kind, every falsy value, null, a symbolic int), and a->b on grids with a history of deletions, replacements and insertions.',
    note='Reference semantics documented in the evidence (comparisons between a quantity and a unit-less number, orderings of booleans and of different text kinds are left unspecified); row ids are strings; literal text decoding belongs to C12.', ref='5 C11')
 CHECKS['C12'] = dict(engine=SYMX, technique='bounded symbolic execution of the filter text -> AST -> generated-source path (real filter grammar through the symbolic pyparsing interpreter, real parse actions, real source generation) with one symbolic code point per position; syntactic safety check of the generated source; canary filters under sys.addaudithook; replay',
-   text='For 17 filters covering every literal and identifier position, one unconstrained symbolic code point replaces / is inserted at every position; parse_filter and _generate_filter_in_python run symbolically; every path either rejects the text with a parse error or yields a source whose return expression contains only hszinc\'s own helper names, parameters, constants, constant subscripts and lists of constants (so no name or call taken from the filter text). 42 canary filters (builtins, dunder names, quote/backslash breakouts) are evaluated concretely under an audit hook: no canary effect, no process/file/socket event, generated sources safe, grid and module globals unchanged.',
+   text='For 17 filters covering every literal and identifier position, one unconstrained symbolic code point replaces / is inserted at every position; parse_filter and _generate_filter_in_python run symbolically; every path either rejects the text with a parse error or yields a source whose return expression contains only hszinc\'s own helper names, parameters, constants, constant subscripts and lists of constants (so no name or call taken from the filter text), and every tag name, reference name, type name and dict key of an accepted filter is a well-formed token. 42 canary filters (builtins, dunder names, quote/backslash breakouts) are evaluated concretely under an audit hook: no canary effect, no process/file/socket event, generated sources safe, grid unchanged, and hszinc\'s module-level state (identity of every module global, size of every container, warning-registry entries) unchanged under the default warning filters.',
    note='The generated text is checked after concretising symbolic characters (exhaustive for small domains, sampled representatives otherwise, counted); safety is syntactic (vf/c12audit.py).', ref='5 C12')
 CHECKS['C10'] = dict(engine=SYMX, technique='bounded symbolic execution of the real Grid mutators, writers and readers (own explorer, z3 decides every branch) against an independently stated version gate; replay',
    text='15 entry paths (constructor arguments, metadata and column-metadata stores/overwrites, column[name]={...}, append, insert, extend, setitem, +=) x 10 declared versions (none, 2.0, 3.0, 2.5, 3.0.0, 1.0, 4.0, 2.0.0, 2.0a, 3) x 12 value kinds are chosen by symbolic selectors: a 3.0-only value upgrades an unversioned grid, is accepted by a 3.0-rules version and refused with ValueError (grid unchanged) otherwise; all pairs of stores; the writers as last line of defence for data placed behind the grid\'s back; and the five decisions Grid / ZINC writer / JSON writer / ZINC reader / JSON reader agree for the named versions and for every version a[.b[.c]][a] with symbolic components a<=4, b<=3, c<=2.',
    note='Gate stated independently as "declared version later than 2.0"; values are concrete objects chosen by symbolic selectors; multi-item extend calls are not required to be atomic.', ref='5 C10')
 CHECKS['C13'] = dict(engine='E2-symx + deterministic scheduler', technique='schedules and histories as sequences of symbolic integers enumerated exhaustively by the explorer (z3 decides feasibility), each executed on the real code by a deterministic thread scheduler (sys.settrace line granularity); replay of the schedule',
-   text='2 (quick) / 3 (thorough) real threads each compile and evaluate a distinct filter with its own literals through the real Grid.filter; every thread is stopped at each source line of filter_function/_filter_function/_FnWrapper and the next thread to run is a symbolic integer: all interleavings with <=2 (quick) / <=3 preemptions are explored, also with a capacity-2 cache so that evictions and finalisers interleave with compilations. Histories: all sequences of 5-7 evaluations over 3-4 filters with a cache of 2-3 entries (through Grid.filter or previously obtained functions), and one concrete history of 1500 distinct filters around the real capacity with a hot filter and held functions. Every thread/step must return exactly its own filter\'s rows.',
+   text='2 (quick) / 3 (thorough) real threads each compile and evaluate a distinct filter with its own literals through the real Grid.filter; every thread is stopped at each source line of filter_function/_filter_function/_FnWrapper and the next thread to run is a symbolic integer: all interleavings with <=2 (quick) / <=3 preemptions are explored, also with a capacity-2 cache so that evictions and finalisers interleave with compilations. Histories: all sequences of 5-6 evaluations over 3-4 same-shape filters whose literals are equal and hash alike in Python but differ in Haystack kind (true/1, false/0) with a cache of 2-3 entries (through Grid.filter or previously obtained functions), and one concrete history of 1500 distinct filters around the real capacity with a hot filter and held functions. Every thread/step must return exactly its own filter\'s rows.',
    note='Scheduling granularity is the source line of the compile step; lru_cache itself assumed thread safe; capacity reduced by re-creating the cache in the eviction scenarios.', ref='5 C13')
 CHECKS['C17'] = dict(engine='E3-z3 tables + exhaustive validation', technique='z3 queries over the live zone-name maps and pytz transition tables (bijection, offset form), then exhaustive execution of every tabulated (zone, transition, delta, microsecond) and (fixed offset, local time) through the real writers and readers; replay',
    text='The name<->zone maps and the transition tables of all mapped zones are read from the live objects. z3 decides: the maps are mutually inverse and one-to-one (4 queries over the maps as functions), and no tabulated offset needs a form the readers cannot parse (one query per zone). Because what remains is library calendar arithmetic, the table is not abstracted further but validated exhaustively against the implementation: every tabulated transition instant of every zone +-{0,1 s,30 min} (thorough: more deltas) x microseconds, in both formats, must keep instant, UTC offset and Haystack zone name; and for fixed-offset tzinfo (whole-minute offsets -14h..+14h at ordinary, skipped and ambiguous local times) the writer must name a zone with that offset at that instant or raise ValueError, never another exception, never change the instant.',
